@@ -614,6 +614,19 @@ func (s *Specs) loadSpecFile(w *World, path string, pkg *packages.Package, trust
 			if cur == nil {
 				return fail(l, "ghost statement outside contract")
 			}
+			if mr := regexp.MustCompile(`^at\s+return\s*:\s*(.+?)\s+=\s+(.+)$`).FindStringSubmatch(rest); mr != nil {
+				// ghost at return: target = value  (runs at every return, results bound; the ghost event "this call reported ...")
+				te, err := parseExprAt(mr[1], path, l.line)
+				if err != nil {
+					return err
+				}
+				ve, err := parseExprAt(mr[2], path, l.line)
+				if err != nil {
+					return err
+				}
+				cur.Ghosts = append(cur.Ghosts, GhostStmt{Callee: "@return", Target: te, Value: ve, Src: rest})
+				continue
+			}
 			m := regexp.MustCompile(`^(after|before)\s+call\s+(\S+?)(?:\s+#(\d+))?\s*:\s*(.+?)\s+=\s+(.+)$`).FindStringSubmatch(rest)
 			if m == nil {
 				return fail(l, "ghost after|before call <callee> [#k]: target = value")
